@@ -57,6 +57,39 @@ fn build_conc(tsan: bool) -> Result<std::path::PathBuf, String> {
     Ok(if tsan { td.join("x86_64-unknown-linux-gnu/release/c18_conc") } else { td.join("release/c18_conc") })
 }
 
+
+/// Runs the racing-release scenario of c18_conc in a child process (a stack overflow is a fatal
+/// signal). Ok(None) = survived, Ok(Some(msg)) = aborted with a stack overflow, Err = could not run.
+pub fn longdrop(rounds: usize, len: usize) -> Result<Option<String>, String> {
+    // dev profile on purpose (see src/bin/longdrop.rs)
+    let mut b = cargo_cmd(None);
+    b.current_dir(harness_dir());
+    b.arg("build").arg("--quiet").arg("--bin").arg("longdrop").arg("--target-dir").arg(target_dir());
+    for a in repo_override_args() {
+        b.arg(a);
+    }
+    b.env("RUSTFLAGS", "-Awarnings");
+    let (code, _o, err) = run_capture(b)?;
+    if code != 0 {
+        return Err(format!("building longdrop failed:\n{}", err.lines().rev().take(15).collect::<Vec<_>>().into_iter().rev().collect::<Vec<_>>().join("\n")));
+    }
+    let bin = target_dir().join("debug/longdrop");
+    let mut c = Command::new(&bin);
+    c.arg(rounds.to_string()).arg(len.to_string());
+    c.env_remove("RUST_MIN_STACK");
+    let out = c.output().map_err(|e| e.to_string())?;
+    let so = String::from_utf8_lossy(&out.stdout).to_string();
+    let se = String::from_utf8_lossy(&out.stderr).to_string();
+    if out.status.success() && so.contains("LONGDROP ok") {
+        return Ok(None);
+    }
+    use std::os::unix::process::ExitStatusExt;
+    if se.contains("overflowed its stack") || se.contains("stack overflow") || matches!(out.status.signal(), Some(6) | Some(11) | Some(7)) {
+        return Ok(Some(format!("two threads released the last two owners of a {}-entry history at the same time and the process aborted: {}", len, se.lines().take(3).collect::<Vec<_>>().join(" | "))));
+    }
+    Err(format!("longdrop child failed: status {:?} {}", out.status, se.lines().take(5).collect::<Vec<_>>().join(" | ")))
+}
+
 pub fn run_c18(cfg: &RunCfg, stats: &mut Stats, extra: &mut Value) -> Outcome {
     // ---- type-level half
     match probe() {
@@ -110,6 +143,21 @@ pub fn run_c18(cfg: &RunCfg, stats: &mut Stats, extra: &mut Value) -> Outcome {
         }
         let f = Fail::new("C18:transcript", viol["detail"].as_str().unwrap_or("").to_string());
         return Outcome::Violation(Violation { replay: json!({"property": "C18", "kind": "concurrent", "clause": f.clause, "detail": f.detail, "case": viol["case"], "seed": cfg.seed, "note": "schedule dependent: the replay re-runs the program up to 200 times"}), fail: f });
+    }
+    // ---- racing release of a long shared history
+    let (rounds, len) = if cfg.thorough { (80_000usize, 30_000usize) } else { (6_000usize, 30_000usize) };
+    match longdrop(rounds, len) {
+        Err(e) => return Outcome::Inconclusive(e),
+        Ok(Some(msg)) => {
+            let f = Fail::new("C18:concurrent_release_aborts", msg);
+            return Outcome::Violation(Violation { replay: json!({"property": "C18", "kind": "longdrop", "clause": f.clause, "detail": f.detail, "rounds": rounds * 2, "len": len}), fail: f });
+        }
+        Ok(None) => {
+            stats.add("longdrop/racing_releases_of_a_30k_entry_history_dev_profile", rounds as u64);
+            if !stats.frozen {
+                stats.evaluations += rounds as u64;
+            }
+        }
     }
     // ---- sanitizer (thorough)
     if cfg.thorough {
@@ -171,6 +219,10 @@ pub fn replay_c18(v: &Value) -> Result<Option<Fail>, String> {
                 Err(format!("c18_conc replay exited with {}", code))
             }
         }
+        Some("longdrop") => match longdrop(v["rounds"].as_u64().unwrap_or(1000) as usize, v["len"].as_u64().unwrap_or(400_000) as usize)? {
+            None => Ok(None),
+            Some(m) => Ok(Some(Fail::new("C18:concurrent_release_aborts", m))),
+        },
         _ => Err("replay of a sanitizer report: re-run the thorough check".into()),
     }
 }
